@@ -132,12 +132,13 @@ func (c05) Run(c *Ctx, i int) CaseResult {
 	if c.Tier == "thorough" || c.Tier == "search" {
 		nsched = 33
 	}
-	released := 0
+	released, traced := 0, 0
 	for k := 0; k < nsched; k++ {
 		policy := schedPolicies[k%len(schedPolicies)]
 		sc := NewSched(policy, c.Seed*977+int64(i)*131+int64(k))
 		fc := &FedCase{In: in}
-		f, err := NewFed(in.Spec, ref.Store, gateway.WithLogger(SchedLogger{S: sc, GateCollector: policy == "starve-collector"}))
+		rec := &TraceRec{}
+		f, err := NewFed(in.Spec, ref.Store, gateway.WithLogger(SchedLogger{S: sc, GateCollector: policy == "starve-collector", Rec: rec}))
 		if err != nil {
 			res.Fails = append(res.Fails, Failure{Channel: "harness", Classifier: "harness-error", What: err.Error(), Input: in})
 			return res
@@ -158,6 +159,17 @@ func (c05) Run(c *Ctx, i int) CaseResult {
 			res.Fails = append(res.Fails, Failure{Channel: "crash", Classifier: "unclassified", What: fmt.Sprintf("panic: %v", out.Panicked), Input: in, Observed: map[string]interface{}{"schedule": sc.Trace}})
 			return res
 		}
+		// L1: the observed execution must be a run of the executor machine the theorems are about
+		if what, detail, terr := TraceCorr(c, rec, -1); terr != nil {
+			res.Fails = append(res.Fails, Failure{Channel: "harness", Classifier: "harness-error", What: terr.Error(), Input: in})
+			return res
+		} else if what != "" {
+			detail["schedule"] = sc.Trace
+			res.Fails = append(res.Fails, Failure{Channel: "L1.trace", Classifier: "unclassified", What: what + fmt.Sprintf(" (policy %s)", policy), Input: in, Observed: detail})
+			return res
+		} else if detail != nil {
+			traced++
+		}
 		if got, gotErrs := Canon(out.Data), fmt.Sprint(errMultiset(out.Err)); got != base || gotErrs != baseErrs {
 			res.Fails = append(res.Fails, Failure{Channel: "L0.schedule", Classifier: "unclassified",
 				What:  fmt.Sprintf("the response depends on the schedule (policy %s, %d releases): it differs from the unscheduled run", policy, len(sc.Trace)),
@@ -166,7 +178,7 @@ func (c05) Run(c *Ctx, i int) CaseResult {
 			return res
 		}
 	}
-	res.Counters = map[string]int{"service_calls": ncalls, "schedules": nsched, "releases": released}
+	res.Counters = map[string]int{"service_calls": ncalls, "schedules": nsched, "releases": released, "traces_accepted_by_machine": traced}
 	res.Features = append(FeatList(insFeat), fmt.Sprintf("faults-%d", len(in.Faults)))
 	if i%23 == 0 {
 		res.Sample = map[string]interface{}{"query": in.Query, "faults": in.Faults, "calls": ncalls, "schedules": nsched, "releases": released}
